@@ -6,6 +6,8 @@ import (
 	"go/token"
 	"go/types"
 	"math"
+	"sort"
+	"strings"
 
 	"golang.org/x/tools/go/ssa"
 
@@ -188,6 +190,145 @@ func runTolerance(c *core.Ctx) []core.Obligation {
 	} else {
 		add("tessellator:two-samples", "-", "", false, "", "unresolved anchor: estimateMaxError")
 	}
+	// (6) the two tessellation constants fit the documented error model (after round-6 seed C20-r6m3, the fraction
+	// changed from 0.312... to 0.321...): the error is measured at x0 = 1 - 2*fraction (in the [-1, 1] parameter) and
+	// an edge is accepted when that error is at most scale * tolerance. Under the model in the file comment the true
+	// maximum is at most E(x0)/E1(x0) or E(x0)/E2(x0), so the accepted edges stay within the tolerance only if
+	// scale <= min(E1(x0), E2(x0)), with E2(x) = x(1-x^2)/(2*sqrt(3)/9) and E1 the spherical Plate Carree function
+	// quoted there. Both functions are evaluated here at the constants found in the source.
+	frac, okF := pkgFloatConst(c, "s2", "tessellationInterpolationFraction")
+	if okS && okF {
+		x0 := 1 - 2*frac
+		e2 := x0 * (1 - x0*x0) / (2 * math.Sqrt(3) / 9)
+		s8, s4 := math.Sin(math.Pi/8*(1-x0)), math.Sin(math.Pi/4*(1-x0))
+		e1 := math.Asin(math.Sqrt(s8*s8+s4*s4*math.Cos(math.Pi/4)*math.Sin(math.Pi/4*x0))) / math.Asin(math.Sqrt((1-1/math.Sqrt2)/2))
+		lim := math.Min(e1, e2)
+		add("tessellator:constants-fit-error-model", "-", "", scale <= lim*(1+1e-12) && frac > 0 && frac < 0.5,
+			fmt.Sprintf("fraction %.17g gives x0 = %.6f, E1(x0) = %.12f, E2(x0) = %.12f; the scale factor %.17g does not exceed either", frac, x0, e1, e2, scale),
+			fmt.Sprintf("fraction %.17g gives x0 = %.6f with E1(x0) = %.6f and E2(x0) = %.6f, but the measured error is compared with %.6f * tolerance: under the documented error model the true maximum of an accepted edge can reach %.4f times the tolerance", frac, x0, e1, e2, scale, scale/lim))
+	} else {
+		add("tessellator:constants-fit-error-model", "-", "", false, "", "unresolved anchor: the tessellation constants")
+	}
+	// (7) no SnapPoint squeezes a scaled coordinate through a narrow integer (after round-6 seed C20-r6m2, int32 of
+	// degrees * 10^exponent): the grid exponent goes up to 10, where 180 * 10^10 is far beyond 32 bits, so the
+	// conversion overflows and the "snapped" point is nowhere near the input.
+	nSnap := 0
+	for _, fn := range c.GeoFuncs() {
+		if fn.Name() != "SnapPoint" || fn.Signature.Recv() == nil {
+			continue
+		}
+		nSnap++
+		bad := ""
+		core.AllInstrs(fn, func(in ssa.Instruction) {
+			cv, ok := in.(*ssa.Convert)
+			if !ok {
+				return
+			}
+			from, ok1 := cv.X.Type().Underlying().(*types.Basic)
+			to, ok2 := cv.Type().Underlying().(*types.Basic)
+			if !ok1 || !ok2 || from.Info()&types.IsFloat == 0 || to.Info()&types.IsInteger == 0 {
+				return
+			}
+			switch to.Kind() {
+			case types.Int64, types.Uint64:
+				return
+			}
+			bad = c.Pos(cv.Pos())
+		})
+		add("snapper:no-narrow-integer:"+core.FuncName(fn), c.Pos(fn.Pos()), core.FuncName(fn), bad == "",
+			"no floating-point coordinate is converted to an integer narrower than 64 bits",
+			"a scaled coordinate is converted to a "+"narrow integer at "+bad+": for the larger grid exponents the value (up to 180 * 10^10) does not fit, the conversion overflows, and SnapPoint returns a point far outside the declared snap radius")
+	}
+	// (8) edges longer than 90 degrees are always subdivided (after round-7 seed C20-r7m1, the guard rewritten as
+	// ChordAngleBetweenPoints(a, b) > s1.StraightChordAngle, which no chord angle can exceed): the two-sample
+	// estimate is only valid up to 90 degrees, so the "infinite error" answer must be reachable for such edges -
+	// a.Dot(b) < c with -1e-13 <= c <= 0, or a chord angle compared with at most RightChordAngle (2).
+	if fn := c.Fn("s2", "EdgeTessellator", "estimateMaxError"); fn != nil {
+		okGuard, found := false, false
+		for _, b := range fn.Blocks {
+			ifi, ok := b.Instrs[len(b.Instrs)-1].(*ssa.If)
+			if !ok {
+				continue
+			}
+			bo, ok := ifi.Cond.(*ssa.BinOp)
+			if !ok {
+				continue
+			}
+			// does the true side return InfChordAngle()?
+			retInf := false
+			for _, in := range b.Succs[0].Instrs {
+				if call, ok := in.(*ssa.Call); ok && core.StaticCallee(call) != nil && core.StaticCallee(call).Name() == "InfChordAngle" {
+					retInf = true
+				}
+			}
+			if !retInf {
+				continue
+			}
+			found = true
+			kval := func(v ssa.Value) (float64, bool) {
+				k, ok := v.(*ssa.Const)
+				if !ok || k.Value == nil {
+					return 0, false
+				}
+				f, _ := constant.Float64Val(constant.ToFloat(k.Value))
+				return f, true
+			}
+			callee := func(v ssa.Value) string {
+				if call, ok := v.(*ssa.Call); ok && core.StaticCallee(call) != nil {
+					return core.StaticCallee(call).Name()
+				}
+				return ""
+			}
+			if k, ok := kval(bo.Y); ok {
+				switch {
+				case callee(bo.X) == "Dot" && (bo.Op == token.LSS || bo.Op == token.LEQ) && k <= 0 && k >= -1e-13:
+					okGuard = true
+				case callee(bo.X) == "ChordAngleBetweenPoints" && (bo.Op == token.GTR || bo.Op == token.GEQ) && k <= 2*(1+1e-12) && k > 0:
+					okGuard = true
+				}
+			}
+		}
+		switch {
+		case !found:
+			add("tessellator:long-edges-always-split", c.Pos(fn.Pos()), core.FuncName(fn), false, "", "estimateMaxError no longer has a branch that answers 'infinite error': edges longer than 90 degrees, for which the two-sample estimate is not valid, are accepted on that estimate")
+		default:
+			add("tessellator:long-edges-always-split", c.Pos(fn.Pos()), core.FuncName(fn), okGuard, "edges whose endpoints are more than 90 degrees apart get an infinite error estimate and are always subdivided",
+				"the test that sends long edges to 'infinite error' does not fire at 90 degrees (a chord angle never exceeds StraightChordAngle): edges between 90 and 180 degrees are accepted on the two-sample estimate, which is not valid for them, and the chain can deviate by more than the tolerance")
+		}
+	} else {
+		add("tessellator:long-edges-always-split", "-", "", false, "", "unresolved anchor")
+	}
+	// (9) the x coordinate is wrapped in projection units (after round-7 seed C20-r7m2,
+	// math.Remainder(toRadians*pt.X, xWrap)): xWrap is in the projection's own units, so the value reduced modulo
+	// xWrap must be the raw coordinate; scaled to radians first it is reduced modulo the wrong period whenever the
+	// projection's scale is not Pi.
+	nproj := 0
+	for _, fn := range c.GeoFuncs() {
+		if fn.Name() != "ToLatLng" || fn.Signature.Recv() == nil {
+			continue
+		}
+		core.AllInstrs(fn, func(in ssa.Instruction) {
+			call, ok := in.(*ssa.Call)
+			if !ok || core.StaticCallee(call) == nil || core.StaticCallee(call).Name() != "Remainder" || len(call.Call.Args) != 2 {
+				return
+			}
+			nproj++
+			raw := false
+			if fr, ok := core.AsFieldLoad(call.Call.Args[0]); ok && fr.Name == "X" {
+				raw = true
+			}
+			mod, okm := core.AsFieldLoad(call.Call.Args[1])
+			add("projection:wrap-in-projection-units:"+core.FuncName(fn), c.Pos(call.Pos()), core.FuncName(fn), raw && okm && mod.Name == "xWrap",
+				"the raw x coordinate is reduced modulo xWrap, both in projection units",
+				"math.Remainder is applied to something other than the raw x coordinate with modulus xWrap: xWrap is in projection units, so a coordinate already scaled to radians is reduced modulo the wrong period for every projection whose scale is not Pi, and Unproject(Project(p)) lands tens of degrees away from p")
+		})
+	}
+	if nproj < 2 {
+		add("projection:wrap-in-projection-units:anchor", "-", "", false, "", fmt.Sprintf("unresolved anchor: %d wraps in ToLatLng methods, 2 expected", nproj))
+	}
+	if nSnap < 3 {
+		add("snapper:no-narrow-integer:anchor", "-", "", false, "", fmt.Sprintf("unresolved anchor: %d SnapPoint methods, 3 expected", nSnap))
+	}
 	return obs
 }
 
@@ -277,6 +418,95 @@ func runOrderIndep(c *core.Ctx) []core.Obligation {
 			add("Intersection:hemisphere-uses-all-vertices", fn, okAll, "the vector that decides the hemisphere is a function of all four vertices",
 				"the vector that decides on which side of the sphere the result lies does not depend on all four vertices: it changes when the edges are swapped, and when the edge it is taken from is nearly 180 degrees long it is rounding noise, so the antipode of the intersection is returned")
 		}
+		// (1b) ... and it is the balanced sum (a0 + a1) + (b0 + b1) (after round-6 seed C16-r6m2, the parentheses
+		// "simplified" away): floating-point addition is commutative but not associative, so only a sum whose two
+		// halves are the two edges gives the same bits when an edge is reversed (x + y == y + x) or the edges are
+		// swapped (X + Y == Y + X). Any other grouping of the four vertices depends on the argument order, and for
+		// nearly antipodal endpoints the sign test, and with it the returned point, flips.
+		{
+			idx := map[string]int{}
+			for i, p := range fn.Params {
+				idx[p.Name()] = i
+			}
+			var leaf func(v ssa.Value, d int) int
+			leaf = func(v ssa.Value, d int) int {
+				if d > 6 {
+					return -1
+				}
+				switch x := v.(type) {
+				case *ssa.Parameter:
+					if i, ok := idx[x.Name()]; ok {
+						return i
+					}
+				case *ssa.Field:
+					return leaf(x.X, d+1)
+				case *ssa.UnOp:
+					if x.Op == token.MUL {
+						return leaf(x.X, d+1)
+					}
+				case *ssa.FieldAddr:
+					return leaf(x.X, d+1)
+				case *ssa.Alloc:
+					var src ssa.Value
+					n := 0
+					for _, r := range *x.Referrers() {
+						if st, ok := r.(*ssa.Store); ok && st.Addr == ssa.Value(x) {
+							n++
+							src = st.Val
+						}
+					}
+					if n == 1 {
+						return leaf(src, d+1)
+					}
+				}
+				return -1
+			}
+			isAdd := func(v ssa.Value) (*ssa.Call, bool) {
+				call, ok := v.(*ssa.Call)
+				if !ok || core.StaticCallee(call) == nil || core.StaticCallee(call).Name() != "Add" || len(call.Call.Args) != 2 {
+					return nil, false
+				}
+				return call, true
+			}
+			balanced, seenDot := false, false
+			core.AllInstrs(fn, func(in ssa.Instruction) {
+				bo, isBo := in.(*ssa.BinOp)
+				if !isBo || bo.Op != token.LSS {
+					return
+				}
+				dot, isCall := bo.X.(*ssa.Call)
+				if !isCall || core.StaticCallee(dot) == nil || core.StaticCallee(dot).Name() != "Dot" || len(dot.Call.Args) != 2 {
+					return
+				}
+				seenDot = true
+				top, ok := isAdd(dot.Call.Args[1])
+				if !ok {
+					return
+				}
+				l, okl := isAdd(top.Call.Args[0])
+				r, okr := isAdd(top.Call.Args[1])
+				if !okl || !okr {
+					return
+				}
+				pair := func(c *ssa.Call) int {
+					a, b := leaf(c.Call.Args[0], 0), leaf(c.Call.Args[1], 0)
+					if a < 0 || b < 0 || a == b || a/2 != b/2 {
+						return -1
+					}
+					return a / 2
+				}
+				pl, pr := pair(l), pair(r)
+				if pl >= 0 && pr >= 0 && pl != pr {
+					balanced = true
+				}
+			})
+			if !seenDot {
+				add("Intersection:hemisphere-sum-balanced", fn, false, "", "unresolved anchor: the hemisphere test pt.Dot(...) < 0 was not found")
+			} else {
+				add("Intersection:hemisphere-sum-balanced", fn, balanced, "the deciding vector is (a0 + a1) + (b0 + b1): each half is one edge, so reversing an edge or swapping the edges gives the same bits",
+					"the four vertices are not summed as (a0 + a1) + (b0 + b1): floating-point addition is not associative, so another grouping gives different bits when an edge is reversed or the edges are swapped; for edges with nearly antipodal endpoints the sum is rounding noise, its sign flips with the argument order, and Intersection returns the antipode for one order")
+			}
+		}
 		// (2) exact fallback only when the stable method declined
 		okFallback, seenExact := true, false
 		core.AllInstrs(fn, func(in ssa.Instruction) {
@@ -309,6 +539,80 @@ func runOrderIndep(c *core.Ctx) []core.Obligation {
 			"intersectionExact is not reached exactly on the 'stable method declined' edge")
 	} else {
 		add("Intersection:hemisphere-uses-all-vertices", nil, false, "", "unresolved anchor: Intersection")
+	}
+	// (2b) the stable method declines on equality too (after round-7 seed C16-r7m1, `distSum <= errorSum` turned
+	// into `<`): the two sides are equal only when both are 0, i.e. every intermediate has underflowed; the
+	// interpolation that follows then divides 0 by 0, and the NaN passes the final error test.
+	if fn := c.Fn("s2", "", "intersectionStableSorted"); fn != nil {
+		found, incl := false, false
+		core.AllInstrs(fn, func(in ssa.Instruction) {
+			bo, isBo := in.(*ssa.BinOp)
+			if !isBo {
+				return
+			}
+			isAbs := func(v ssa.Value) bool {
+				call, ok := v.(*ssa.Call)
+				return ok && core.StaticCallee(call) != nil && core.StaticCallee(call).Name() == "Abs"
+			}
+			isSum := func(v ssa.Value) bool {
+				b, ok := v.(*ssa.BinOp)
+				return ok && b.Op == token.ADD
+			}
+			if found || (bo.Op != token.LEQ && bo.Op != token.LSS && bo.Op != token.GEQ && bo.Op != token.GTR) {
+				return
+			}
+			switch {
+			case isAbs(bo.X) && isSum(bo.Y):
+				found = true
+				incl = bo.Op == token.LEQ
+			case isSum(bo.X) && isAbs(bo.Y):
+				found = true
+				incl = bo.Op == token.GEQ
+			}
+		})
+		if !found {
+			add("intersectionStableSorted:declines-on-equality", fn, false, "", "unresolved anchor: the comparison of |b0Dist - b1Dist| with the error sum was not found")
+		} else {
+			add("intersectionStableSorted:declines-on-equality", fn, incl, "the stable method declines when the distance sum does not exceed the error sum, equality included",
+				"the stable method declines only when the distance sum is strictly below the error sum: for edges so short that every intermediate underflows both are 0, the method goes on to compute 0/0, and Intersection returns (NaN, NaN, NaN) instead of falling back to the exact method")
+		}
+	} else {
+		add("intersectionStableSorted:declines-on-equality", nil, false, "", "unresolved anchor")
+	}
+	// (2c) the exact method tests the vector it is about to normalise (after round-7 seed C16-r7m2,
+	// `x == (r3.Vector{})` replaced by `xP.IsZero()`): the exact cross product can be non-zero and still underflow to
+	// (0,0,0) when converted to float64; what is normalised is the float vector, so that is what must be tested.
+	if fn := c.Fn("s2", "", "intersectionExact"); fn != nil {
+		ok := false
+		core.AllInstrs(fn, func(in ssa.Instruction) {
+			bo, isBo := in.(*ssa.BinOp)
+			if !isBo || (bo.Op != token.EQL && bo.Op != token.NEQ) || !core.IsNamed(bo.X.Type(), "r3", "Vector") {
+				return
+			}
+			var fromExact func(v ssa.Value) bool
+			fromExact = func(v ssa.Value) bool {
+				if ld, isLd := v.(*ssa.UnOp); isLd && ld.Op == token.MUL {
+					// a local that is reassigned later lives in a slot: look at what is stored there
+					if al, isAl := ld.X.(*ssa.Alloc); isAl {
+						for _, r := range *al.Referrers() {
+							if st, isSt := r.(*ssa.Store); isSt && st.Addr == ssa.Value(al) && fromExact(st.Val) {
+								return true
+							}
+						}
+					}
+					return false
+				}
+				call, isC := v.(*ssa.Call)
+				return isC && core.StaticCallee(call) != nil && core.StaticCallee(call).Name() == "Vector" && core.StaticCallee(call).Signature.Recv() != nil
+			}
+			if fromExact(bo.X) || fromExact(bo.Y) {
+				ok = true
+			}
+		})
+		add("intersectionExact:zero-test-on-float-vector", fn, ok, "the collinear case is recognised on the float64 vector that would be normalised",
+			"the collinear case is no longer recognised by comparing the float64 cross product with the zero vector: an exact cross product that is non-zero but underflows in the conversion is normalised as (0,0,0), and Intersection returns the zero vector instead of an endpoint")
+	} else {
+		add("intersectionExact:zero-test-on-float-vector", nil, false, "", "unresolved anchor")
 	}
 	// (3) projection: tie between the two squared distances is broken by comparing the points
 	if fn := c.Fn("s2", "", "projection"); fn != nil {
@@ -369,6 +673,131 @@ func runErrModel(c *core.Ctx) []core.Obligation {
 	} else {
 		obs = append(obs, core.Ob("R-ERRMODEL", "minUpdateDistanceMaxError", c.Pos(fn.Pos()), core.FuncName(fn), core.Violated,
 			"the documented error of UpdateMinDistance is no longer max(interior-case error, MaxPointError): in the vertex case the result is a distance between two points, whose error is MaxPointError; with a smaller term the bound is exceeded for distances beyond 90 degrees and the conservatively expanded limits of IsDistanceLess / EdgeQuery miss true results"))
+	}
+	// the interior-case error formula takes a = sqrt(b * (2 - b)) (after round-6 seed C17-r6m2, the Sqrt dropped):
+	// a and b are the components of the chord perpendicular and parallel to the edge's plane; b <= 1, so b*(2-b) <= 1
+	// and leaving out the square root makes a, and with it the whole allowance, smaller than the documented bound.
+	if f := c.Fn("s2", "", "minUpdateInteriorDistanceMaxError"); f != nil {
+		okSqrt := false
+		core.AllInstrs(f, func(in ssa.Instruction) {
+			call, ok := in.(*ssa.Call)
+			if !ok || core.StaticCallee(call) == nil || core.StaticCallee(call).Name() != "Sqrt" || len(call.Call.Args) != 1 {
+				return
+			}
+			if m, ok := call.Call.Args[0].(*ssa.BinOp); ok && m.Op == token.MUL {
+				for _, pair := range [][2]ssa.Value{{m.X, m.Y}, {m.Y, m.X}} {
+					if d, ok := pair[1].(*ssa.BinOp); ok && d.Op == token.SUB && d.Y == pair[0] {
+						if k, ok := d.X.(*ssa.Const); ok && k.Value != nil {
+							if v, _ := constant.Float64Val(constant.ToFloat(k.Value)); v == 2 {
+								// the square root must actually be used
+								if refs := call.Referrers(); refs != nil && len(*refs) > 0 {
+									okSqrt = true
+								}
+							}
+						}
+					}
+				}
+			}
+		})
+		if okSqrt {
+			obs = append(obs, core.Ob("R-ERRMODEL", "minUpdateInteriorDistanceMaxError:a-is-sqrt", c.Pos(f.Pos()), core.FuncName(f), core.Discharged, "a = sqrt(b * (2 - b)) as documented"))
+		} else {
+			obs = append(obs, core.Ob("R-ERRMODEL", "minUpdateInteriorDistanceMaxError:a-is-sqrt", c.Pos(f.Pos()), core.FuncName(f), core.Violated,
+				"the perpendicular component a is no longer sqrt(b * (2 - b)): b <= 1, so without the square root a is smaller, the error allowance of the interior case shrinks below the documented bound, and the conservative distance tests built on it reject targets that are within the limit"))
+		}
+	} else {
+		obs = append(obs, core.Ob("R-ERRMODEL", "minUpdateInteriorDistanceMaxError:a-is-sqrt", "-", "", core.Violated, "unresolved anchor"))
+	}
+	// the early exit of interiorDist is strict (after round-6 seed C17-r6m1, `>` turned into `>=`): the comment in the
+	// source explains that the real lower bound is xDotC2 / c2, which may round differently from the multiplicative
+	// form tested here, so the exit may only be taken when the product form is strictly larger.
+	if f := c.Fn("s2", "", "interiorDist"); f != nil {
+		found, strict := false, false
+		core.AllInstrs(f, func(in ssa.Instruction) {
+			bo, ok := in.(*ssa.BinOp)
+			if !ok {
+				return
+			}
+			isSq := func(v ssa.Value) bool { // xDotC * xDotC
+				m, ok := v.(*ssa.BinOp)
+				return ok && m.Op == token.MUL && m.X == m.Y
+			}
+			isProd := func(v ssa.Value) bool { // c2 * float64(minDist)
+				m, ok := v.(*ssa.BinOp)
+				if !ok || m.Op != token.MUL || m.X == m.Y {
+					return false
+				}
+				for _, o := range []ssa.Value{m.X, m.Y} {
+					if isChordAngle(core.StripConv(o).Type()) {
+						return true
+					}
+					if cv, ok := o.(*ssa.ChangeType); ok && isChordAngle(cv.X.Type()) {
+						return true
+					}
+					if cv, ok := o.(*ssa.Convert); ok && isChordAngle(cv.X.Type()) {
+						return true
+					}
+				}
+				return false
+			}
+			switch {
+			case isSq(bo.X) && isProd(bo.Y):
+				found = true
+				strict = bo.Op == token.GTR
+			case isProd(bo.X) && isSq(bo.Y):
+				found = true
+				strict = bo.Op == token.LSS
+			}
+		})
+		switch {
+		case !found:
+			obs = append(obs, core.Ob("R-ERRMODEL", "interiorDist:early-exit-strict", c.Pos(f.Pos()), core.FuncName(f), core.Violated, "unresolved anchor: the comparison xDotC^2 > c2 * minDist was not found"))
+		case strict:
+			obs = append(obs, core.Ob("R-ERRMODEL", "interiorDist:early-exit-strict", c.Pos(f.Pos()), core.FuncName(f), core.Discharged, "the 'great circle is too far away' exit is taken only when xDotC^2 is strictly larger than c2 * minDist"))
+		default:
+			obs = append(obs, core.Ob("R-ERRMODEL", "interiorDist:early-exit-strict", c.Pos(f.Pos()), core.FuncName(f), core.Violated,
+				"the early exit is taken on equality as well: the true bound xDotC^2 / c2 can round to a value below minDist when the product form compares equal, so an edge whose interior is closer than the current minimum by one rounding step is skipped and the reported distance is too large"))
+		}
+	} else {
+		obs = append(obs, core.Ob("R-ERRMODEL", "interiorDist:early-exit-strict", "-", "", core.Violated, "unresolved anchor"))
+	}
+	// the wedge test that separates the interior case from the vertex case is inclusive at both ends (after round-7
+	// seed C17-r7m1, `>= 0` turned into `> 0`): a query point that IS an endpoint must take the vertex case, whose
+	// distance to that endpoint is exactly 0; the interior formula gives a few 1e-17 instead.
+	if f := c.Fn("s2", "", "interiorDist"); f != nil {
+		var ops []string
+		core.AllInstrs(f, func(in ssa.Instruction) {
+			bo, ok := in.(*ssa.BinOp)
+			if !ok {
+				return
+			}
+			isDot := func(v ssa.Value) bool {
+				call, ok := v.(*ssa.Call)
+				return ok && core.StaticCallee(call) != nil && core.StaticCallee(call).Name() == "Dot"
+			}
+			isZero := func(v ssa.Value) bool {
+				k, ok := v.(*ssa.Const)
+				if !ok || k.Value == nil {
+					return false
+				}
+				f, _ := constant.Float64Val(constant.ToFloat(k.Value))
+				return f == 0
+			}
+			switch {
+			case isDot(bo.X) && isZero(bo.Y):
+				ops = append(ops, bo.Op.String())
+			case isDot(bo.Y) && isZero(bo.X):
+				ops = append(ops, map[string]string{"<": ">", ">": "<", "<=": ">=", ">=": "<="}[bo.Op.String()])
+			}
+		})
+		sort.Strings(ops)
+		got := strings.Join(ops, " ")
+		if got == "<= >=" {
+			obs = append(obs, core.Ob("R-ERRMODEL", "interiorDist:endpoint-tests-inclusive", c.Pos(f.Pos()), core.FuncName(f), core.Discharged, "the two wedge tests against 0 are >= and <=: a point on an endpoint's boundary plane takes the vertex case"))
+		} else {
+			obs = append(obs, core.Ob("R-ERRMODEL", "interiorDist:endpoint-tests-inclusive", c.Pos(f.Pos()), core.FuncName(f), core.Violated,
+				"the wedge tests that hand a point to the vertex case compare with 0 as {"+got+"}, expected {<= >=}: with a strict test a query point that coincides with an endpoint is treated as lying over the edge's interior, and its distance comes from the interior formula (a few 1e-17 rad) instead of the exact 0 of the vertex case"))
+		}
 	}
 	return obs
 }
